@@ -41,7 +41,7 @@ EXCLUDED = ("read sleep exec spawn exit quit q watchdog http_client wget ftp_get
 # L label, C command name, * = repeat last 0..3 times
 SIGS = {
     "echo": "S*", "eval": "CS*", "is_command_defined": "C", "noop": "S*", "not": "S*", "print": "S*", "println": "S*",
-    "release": "H", "man": "C",
+    "release": "RH", "man": "C",
     "array": "S*", "array_clear": "A", "array_concat": "AA*", "array_contains": "AS", "array_get": "AI", "array_is_empty": "A",
     "array_join": "AS", "array_length": "A", "array_pop": "A", "array_push": "AS*", "array_remove": "AI", "array_set": "AIS",
     "is_array": "H", "is_map": "H", "is_set": "H", "map": "", "map_clear": "M", "map_contains_key": "MS",
@@ -94,7 +94,9 @@ HAZARD_WORDS = set(EXCLUDED)
 
 def prelude():
     return ["a = set hello", "b = set \"a b\"", "x = set 2", "arr = array a b c", "m = map", "map_put ${m} k v",
-            "s = set_new x y", "rel = array q", "release ${rel}", "bytes = string_to_bytes héllo"]
+            "s = set_new x y", "rel = array q", "release ${rel}", "bytes = string_to_bytes héllo",
+            # collections that contain their own handle (directly and through a map): recursion over handles must terminate
+            "cyc = array x", "array_push ${cyc} ${cyc}", "cm = map", "map_put ${cm} self ${cm}", "map_put ${cm} other ${cyc}"]
 
 
 def pick(rng, code, outs):
@@ -112,7 +114,7 @@ def pick(rng, code, outs):
         r = rng.random()
         if good and r < 0.6:
             return "${%s}" % good
-        return "${%s}" % rng.choice(["arr", "m", "s", "rel", "bytes", "a", "nope"] + outs)
+        return "${%s}" % rng.choice(["arr", "m", "s", "rel", "bytes", "a", "nope", "cyc", "cm"] + outs)
     elif code == "V":
         v = rng.choice(VARS)
     elif code == "P":
@@ -127,6 +129,8 @@ def pick(rng, code, outs):
         v = rng.choice(EXPRS)
     elif code == "L":
         v = rng.choice(LABELS)
+    elif code == "R":
+        return rng.choice(["-r", "--recursive", "-r", "-x"])
     elif code == "C":
         v = rng.choice(sorted(SIGS))
     else:
@@ -211,7 +215,7 @@ def gen_script(rng):
         if cmd in ("array", "array_push", "array_set", "map_put", "set_put", "set_new") and any(a.startswith("${") for a in args[1:] if cmd != "array") \
                 or cmd in ("array", "set_new") and any(a.startswith("${") for a in args):
             stored_ref = True     # a handle may have been stored inside a collection
-        if cmd == "json_encode" and stored_ref:
+        if cmd == "json_encode" and (stored_ref or any("cyc" in a or "${cm}" in a for a in args)):
             continue              # F23 class: json_encode --collection over a store that may contain a cycle
         # values that reference a variable holding a huge number are not generated: outs hold command results only
         line = cmd + "".join(" " + quote(a) for a in args)
@@ -382,7 +386,7 @@ def run(ck):
         src = (texts + scripts)[k]
         if k >= len(texts):
             nontriv.add(src)
-            for l in src.split("\n")[10:]:
+            for l in src.split("\n")[len(prelude()):]:
                 w = l.split(" = ", 1)[-1].split(" ")[0]
                 if w in SIGS:
                     cmds_seen.add(w)
